@@ -34,7 +34,7 @@ package align
 //@ pure func c5b_rowok(code map[string]uint8, b int, r int, s *seq, phase int, n int) bool = forall k :: 0 <= k && k < n ==> c5b_cod(code, c5b_bd(b, r, k), s.sequence[phase+3*k], s.sequence[phase+3*k+1], s.sequence[phase+3*k+2])
 
 //@ func (*align).TranslateByReference
-//@   props C05
+//@   props C05 C01
 //@   requires wfa(a)
 //@   ensures (err == nil) == (0 <= phase && refseq != "" && old(has(a.seqmap, refseq)) && old(a.alphabet) == NUCLEOTIDS && validcode(geneticcode))
 //@   ensures err == nil ==> wfa(a) && nrows(a) == old(nrows(a))
@@ -145,7 +145,7 @@ package align
 
 // the function literal of CodonAlign: threads ONE protein row (name, sequence) of the receiver
 //@ func (*align).CodonAlign$1
-//@   props C05
+//@   props C05 C01
 //@   requires err == nil && buffer != nil && rtAl != nil && wfa(rtAl) && ntseqs != nil && wf(ntseqs)
 //@   ensures result == (err != nil)
 //@   ensures result == !old(c5b_fits(ntseqs, name, sequence))
